@@ -184,6 +184,21 @@ class Emitter:
             ms = self.flatten_union([t])
             if len(ms) == 1:
                 return self.ty(ms[0])
+            # member order: typing caches Union objects up to member order, so the order of the
+            # real object (what the library sees) is authoritative
+            import typing
+            real = typing.get_args(eval(G.ty_src(t, self.tbl, []), self.ns))
+            objs = [eval(G.ty_src(m, self.tbl, []), self.ns) for m in ms]
+            ordered = []
+            for a in real:
+                a0 = getattr(a, "__supertype__", a) if False else a
+                hit = [m for m, o in zip(ms, objs) if o == a0 or (o is None and a0 is type(None))]
+                if not hit:
+                    ordered = None
+                    break
+                ordered.append(hit[0])
+            if ordered is not None and len(ordered) == len(ms):
+                ms = ordered
             return "(TUnion " + cl([self.ty(m) for m in ms]) + ")"
         if k == "data":
             return f"(TData {coq_str(t[1])})"
@@ -283,6 +298,8 @@ class Emitter:
             for a in v:
                 if isinstance(a, float) and a == int(a):
                     raise OutOfModel("integral float as mapping key (member name is repr(float))")
+                if a != a:
+                    raise OutOfModel("NaN-like mapping key (distinct keys, one member name)")
         if k in ("dict", "mapping", "ordereddict", "defaultdict"):
             return "(VDict " + cl([f"({self.value(t[1], a)}, {self.value(t[2], b)})" for a, b in v.items()]) + ")"
         if k == "counter":
@@ -364,6 +381,17 @@ def union_safe(t, tbl, em: "Emitter", seen=None) -> bool:
     Union[Tuple[str, ...], Dict[int, str]] renders the dict {1: 'a'} as ['1']) - a matter of
     C02/C11, not of C06 (the schema still accepts such documents)"""
     seen = set() if seen is None else seen
+
+    def raw_newtype_member(u):
+        if u[0] == "opt":
+            return u[1][0] == "newtype" or raw_newtype_member(u[1])
+        if u[0] == "union":
+            return any(m[0] == "newtype" or raw_newtype_member(m) for m in u[1])
+        return False
+    if raw_newtype_member(t):
+        # Union[NewType('X', str), Tuple[()]] serializes 'b' as []: the identity packer of a NewType member is
+        # guarded by a class check that never holds, the value falls through to the next member (C02/C11)
+        return False
     t = em.strip(t)
     if t[0] in ("opt", "union"):
         ms = em.flatten_union([t])
